@@ -79,13 +79,18 @@ enum Via {
 }
 
 fn run_batch(out: &mut CaseOut, w: usize, vals: &[i64], via: &[Via], zx_row: bool, layout_stream: &[u32]) {
+    let w2 = if w > 32 { w - 29 } else { w + 29 };
     let sigs = vec![
         Sig { name: "I".into(), bits: w, kind: Kind::In(InVal::Val(0)) },
         Sig { name: "O".into(), bits: w, kind: Kind::Out },
         Sig { name: "B".into(), bits: w, kind: Kind::Bidir(InVal::Z) },
+        // a column shared by two signals of different widths: S_out drives the input S_out
+        // (w2 bits) and is the expected value of the bidirectional S (w bits)
+        Sig { name: "S".into(), bits: w, kind: Kind::Bidir(InVal::Val(0)) },
+        Sig { name: "S_out".into(), bits: w2, kind: Kind::In(InVal::Val(0)) },
     ];
-    // header: input column, expected column, bidirectional in + out, virtual column
-    let header: Vec<String> = ["I", "O", "B", "B_out", "V"].iter().map(|s| s.to_string()).collect();
+    // header: input column, expected column, bidirectional in + out, virtual column, shared column
+    let header: Vec<String> = ["I", "O", "B", "B_out", "V", "S_out"].iter().map(|s| s.to_string()).collect();
     let mut stmts = vec![Stmt::Declare("V".into(), Expr::var("O"))];
     let mut row_vals: Vec<Option<i64>> = vec![];
     let mut id = 0;
@@ -98,15 +103,15 @@ fn run_batch(out: &mut CaseOut, w: usize, vals: &[i64], via: &[Via], zx_row: boo
             }
         };
         let es: Vec<Entry> = match via[k % via.len()] {
-            Via::Direct => (0..5).map(|_| entry(*v)).collect(),
+            Via::Direct => (0..6).map(|_| entry(*v)).collect(),
             Via::Arith => {
                 // (v - 1) + 1 with wrapping arithmetic gives v back
                 let e = Expr::bin(BinOp::Add, Expr::bin(BinOp::Sub, Expr::konst(*v), Expr::lit(1)), Expr::lit(1));
-                (0..5).map(|_| Entry::Paren(e.clone())).collect()
+                (0..6).map(|_| Entry::Paren(e.clone())).collect()
             }
             Via::Let => {
                 stmts.push(Stmt::Let("v".into(), Expr::konst(*v)));
-                (0..5).map(|_| Entry::Paren(Expr::var("v"))).collect()
+                (0..6).map(|_| Entry::Paren(Expr::var("v"))).collect()
             }
         };
         stmts.push(Stmt::Row(id, es));
@@ -116,7 +121,7 @@ fn run_batch(out: &mut CaseOut, w: usize, vals: &[i64], via: &[Via], zx_row: boo
     if zx_row {
         stmts.push(Stmt::Row(
             id,
-            vec![Entry::Z(true), Entry::X(false), Entry::Z(false), Entry::Z(true), Entry::X(true)],
+            vec![Entry::Z(true), Entry::X(false), Entry::Z(false), Entry::Z(true), Entry::X(true), Entry::Z(true)],
         ));
         row_vals.push(None);
     }
@@ -175,6 +180,23 @@ fn run_batch(out: &mut CaseOut, w: usize, vals: &[i64], via: &[Via], zx_row: boo
                         return;
                     }
                 }
+                // the shared column: each signal reduces to its own width
+                for (what, got) in [("driver received", get_in(sent, "S_out")), ("row.inputs", get_in(&row.inputs, "S_out"))] {
+                    if got != Some(InVal::Val(reduce(*v, w2))) {
+                        out.fail(
+                            "c07:input-not-reduced",
+                            format!("shared column S_out: program value {v} for the {w2}-bit input S_out: {what} {got:?}, should be {}", reduce(*v, w2)),
+                        );
+                        return;
+                    }
+                }
+                if get_exp("S") != Some(ExpVal::Val(want)) {
+                    out.fail(
+                        "c07:expected-not-reduced",
+                        format!("shared column S_out: program value {v}: expected value of the {w}-bit S is {:?}, should be {want}", get_exp("S")),
+                    );
+                    return;
+                }
                 if get_exp("V") != Some(ExpVal::Val(*v)) {
                     out.fail(
                         "c07:virtual-not-64-bit",
@@ -188,7 +210,9 @@ fn run_batch(out: &mut CaseOut, w: usize, vals: &[i64], via: &[Via], zx_row: boo
                     && get_in(sent, "B") == Some(InVal::Z)
                     && get_exp("O") == Some(ExpVal::X)
                     && get_exp("B") == Some(ExpVal::Z)
-                    && get_exp("V") == Some(ExpVal::X);
+                    && get_exp("V") == Some(ExpVal::X)
+                    && get_in(sent, "S_out") == Some(InVal::Z)
+                    && get_exp("S") == Some(ExpVal::Z);
                 if !ok {
                     out.fail("c07:zx-not-passed-through", format!("width {w}: row `Z x z Z X` gave {}", item.unwrap().short()));
                     return;
